@@ -455,6 +455,17 @@ class C05(Property):
             "writer's file with another mode, the process umask changed, a foreign part file appearing / removed - x file_perms explicit / None x text / binary x "
             'overwrite x first use completing / block raising / a call failing x every single fault position of a LATER save; each save is judged '
             'with the state IT starts from (measured just before it). '
+            'ROUND 5: errno values as BEHAVIOUR CLASSES - the errno names the current source mentions (as errno.X or as a string) first, '
+            'then a family of 38 values code is known to branch on (EPERM / ENOTSUP / EOPNOTSUPP / ENOSYS / EXDEV / EMLINK / EACCES / EROFS ... ; at the '
+            'publishing call every errno the platform knows) at every call; where the run after such a fault differs from the run after '
+            "the site's ordinary errno (other calls, other outcome: the code took another way) - and always at the publishing call (link / rename / "
+            'replace) - the destination created by another process at EVERY later call boundary and just before the call, and a second fault at every '
+            'later call; generated first with overwrite=False. Histories in which an EARLIER use (same object, second object, fresh one) or a call of the '
+            'module-level helpers atomic_rename / replace / _atomic_rename by somebody else on unrelated files (each argument form; succeeding, failing '
+            "with such an errno, failing because the target exists) precedes a save during which the destination appears at each call boundary. "
+            'The other ways of saying the same save: flags as ints / as objects that only have a truth value, AtomicSaver called directly, '
+            'setup() / part_file / __exit__() by hand, the destination as pathlib.Path / with redundant components; a part_file that names the destination '
+            'itself (oracle only); writes at 255..257 / 8191..8193 / 16384 bytes. '
             'Non-trivial = the save did not complete (some call failed, the body raised, or it was refused); '
             'distinct = distinct (configuration, initial state, body, plan).')
     ASSUMPTIONS = ['faults are injected by replacing boltons.fileutils.os and wrapping the part file object: an injected '
@@ -856,12 +867,13 @@ class C05(Property):
                 mv = rng.choice(self.ENV_MOVES + [['c', rng.choice([0o400, 0o640, 0o666, 0o1644, 0o777, 0])],
                                                   ['u', rng.choice([0o022, 0o077, 0o002])],
                                                   ['p', rng.choice([0o600, 0o644, 0o660]), bytes([rng.randrange(65, 91)] * rng.choice([1, 5])).hex()]])
-                h.append(list(mv) if rng.random() < 0.85 else rng.choice([['P', 0o600, b'foreign-part'.hex()], ['Q']]))
+                h.append(list(mv) if rng.random() < 0.85 else rng.choice([['P', 0o600, b'foreign-part'.hex()], ['Q'],
+                                                                          ['r', rng.randrange(5), rng.choice([0, 'x', errno.EPERM, errno.EXDEV])]]))
             if r >= 0.3 or not h:
                 k += 1
                 plan = []
                 if rng.random() < 0.3:
-                    plan = [[rng.randrange(0, 12), rng.choice([errno.ENOSPC, errno.EIO, errno.EPERM, 1001, 1002])]]
+                    plan = [[rng.randrange(0, 12), rng.choice([errno.ENOSPC, errno.EIO, errno.EPERM, 1001, 1002, 'A', errno.ENOSYS, errno.EXDEV])]]
                 h.append(self.sv(k, who=rng.choice([0, 0, 0, 1, 'n']), raises=(1 if rng.random() < 0.2 else 0), plan=plan))
         if h[-1][0] != 's':
             h.append(self.sv(k + 1))
@@ -926,8 +938,10 @@ class C05(Property):
             plan = []
             idxs = sorted(rng.sample(range(0, 14 + len(ops)), rng.choice([0, 1, 1, 2, 2, 3])))
             for k in idxs:
-                plan.append([k, rng.choice(['A', errno.ENOSPC, errno.EIO, errno.EPERM, errno.EEXIST, errno.EACCES, errno.EINTR,
-                                            1001, 1002, rng.choice(sorted(EXC_CODES))])])
+                plan.append([k, rng.choice(['A', 'A', errno.ENOSPC, errno.EIO, errno.EPERM, errno.EEXIST, errno.EACCES, errno.EINTR,
+                                            1001, 1002, rng.choice(sorted(EXC_CODES)),
+                                            rng.choice(errno_values(source_errnos() + TRY_ANOTHER_WAY)),
+                                            rng.choice(errno_values(ERRNO_CLASS_NAMES))])])
             c = dict(ow=rng.randrange(2), owp=rng.randrange(2), rm=rng.randrange(2), txt=rng.randrange(2),
                      perms=rng.choice([None, None, 0o600, 0o644, 0o640, 0o755, 0o444, 0, 0o200, 0o1666]),
                      umask=rng.choice([0o022, 0o077, 0, 0o027, 0o002]),
@@ -948,6 +962,10 @@ class C05(Property):
                     c['alt'] = {'perms': rng.choice([None, 0o600, 0o664]), 'ow': rng.randrange(2)}
             if rng.random() < 0.15:
                 c['cloexec'] = 1
+            if rng.random() < 0.2:
+                c[rng.choice(FORM_KEYS)] = 1
+                if rng.random() < 0.5:
+                    c.update(rng.choice([dict(kwform=2), dict(pathform=2), dict(pathform=3), dict(proto=1, api=1)]))
             yield c
 
     # ------------------------------------------------------------------ model line: the OBSERVED trace
